@@ -39,9 +39,9 @@ def ack(rng):
 
 def state1(rng, **kw):
     d = {"t": "state1", "seed": rng.randrange(1 << 30), "len": rng.choice([107, 107, 101, 105, 120]),
-         "state": rng.randrange(2), "watts": rng.choice([0, 1, 219, 220, 1608, 2600, 3489, 65535, rng.randrange(65536)]),
-         "left": rng.choice([0, 1, 59, 60, 3599, 3600, 86399, rng.randrange(86400)]),
-         "on": rng.choice([0, 61, 86399, rng.randrange(86400)]), "auto": rng.choice([0, 3600, 10800, 86340, rng.randrange(86400)])}
+         "state": rng.randrange(2), "watts": rng.choice([0, 1, 219, 220, 1608, 2600, 3489, 65535, 61694, 65264, rng.randrange(65536)]),
+         "left": rng.choice([0, 1, 59, 60, 3599, 3600, 86399, 61694, 65264, rng.randrange(86400)]),
+         "on": rng.choice([0, 61, 86399, 61694, rng.randrange(86400)]), "auto": rng.choice([0, 3600, 10800, 86340, 61694, 65264, rng.randrange(86400)])}
     d.update(kw)
     return d
 
@@ -59,7 +59,7 @@ def thermo(rng, **kw):
     d = {"t": "thermo", "seed": rng.randrange(1 << 30), "len": rng.choice([109, 109, 92, 96, 130]),
          "state": rng.randrange(2), "mode": rng.randrange(1, 6), "target": rng.choice([0, 16, 23, 24, 30, 255, rng.randrange(256)]),
          "fan": rng.randrange(4), "swing": rng.randrange(2),
-         "temp10": rng.choice([0, 1, 255, 256, 281, 65535, rng.randrange(65536)]), "remote": rand_remote(rng)}
+         "temp10": rng.choice([0, 1, 255, 256, 281, 65535, 61694, 65264, rng.randrange(65536)]), "remote": rand_remote(rng)}
     d.update(kw)
     return d
 
